@@ -66,7 +66,7 @@ def stepEv (st : MonSt) (x : EvActs) : Except String MonSt := do
   let t := e.time
   for cl in [true, false] do
     if let some ((m, t'), (dur, rp)) := overdueBegin (st.side cl) t then
-      throw s!"TimerBegin missing: UpdateTimer (duration {dur}us replace={rp}) set the timer of {sideName cl} machine {m} at {t'} but no TimerBegin was reported before time moved to {t}"
+      throw s!"TimerBegin missing: UpdateTimer ({durClass dur} duration {dur}us replace={rp}) set the timer of {sideName cl} machine {m} at {t'} but no TimerBegin was reported before time moved to {t}"
     if let some (m, exp) := overdueTimer (st.side cl) t then
       throw s!"TimerEnd missing: timer of {sideName cl} machine {m} expired at {exp} but time moved to {t}"
   let sd := st.side e.client
